@@ -103,8 +103,10 @@ def context(x, p):
         for t in part:
             toks.append(t)
         # a symbolic trivia token (space / newline / comment) after the part
-        kind = x.int('gap%d' % g, 0, len(triv) - 1)
         g += 1
+        if g == 3 and not p.get('tail_gap', True):
+            continue                # the input ends with its last code token
+        kind = x.int('gap%d' % (g - 1), 0, len(triv) - 1)
         if x.symbolic:
             toks.append(ST.SymTok(kind, 0, triv))
         else:
@@ -124,7 +126,11 @@ HARNESSES = [
                       dict(Q, k=4, _budget=3000)]),
     Harness('context', context,
             quick=[dict(Q, pre=a, post=b, k=1) for a, b in CONTEXTS[:4]] +
-                  [dict(Q, pre='if (n) ', post='\nn=1\n', k=2)],
+                  [dict(Q, pre='if (n) ', post='\nn=1\n', k=2),
+                   dict(Q, pre='if (n) ', post='x=1', k=1, tail_gap=False),
+                   dict(Q, pre='x=1 ', post='return x', k=1, tail_gap=False),
+                   dict(Q, pre='if (n) x=1 else ', post='y=2', k=1,
+                        tail_gap=False)],
             thorough=[dict(Q, pre=a, post=b, k=2, _budget=1800)
                       for a, b in CONTEXTS] +
                      [dict(Q, pre=a, post=b, k=3, _budget=3000)
